@@ -139,7 +139,7 @@ impl Prop for C03 {
         "C03"
     }
     fn rule(&self) -> &'static str {
-        "the worlds of the engine generator (schemas x 2 datasets x ~10 accepted queries per seed). Each (schema, dataset, query, args) is sent as (demand ...): the implementation runs interpret_ir over a table adapter whose starting-vertex iterator counts how many vertices were pulled, and answers (pulls p1 ... pK) = the counter right after each of the K rows was handed out (model = Lazy.pullsFor over the per-start-vertex row blocks of Interp). Oracle on the implementation: the counter is 0 after interpret_ir returns and before the first next() (pulled-before-first-request); p is monotone (pulls-not-monotone) and p_K <= number of starting vertices (pulled-more-than-exist); for prefixes k in {0, 1, K/2} a fresh run that takes k rows and drops the iterator shows the same counter as the full run at row k and the counter does not move by dropping (pulls-after-drop / prefix-run-differs). A case is non-trivial (nt:multi-start) when the dataset lists >= 2 starting vertices for the query's root edge and the query returns >= 1 row; nt:early-row when additionally the first row is handed out before all starting vertices were pulled."
+        "the worlds of the engine generator (schemas x 2 datasets x ~10 accepted queries per seed). Each (schema, dataset, query, args) is sent as (demand ...): the implementation runs interpret_ir over a table adapter whose starting-vertex iterator counts how many vertices were pulled, and answers (pulls p1 ... pK) = the counter right after each of the K rows was handed out (model = Lazy.pullsFor over the per-start-vertex row blocks of Interp). Oracle on the implementation: the counter is 0 after interpret_ir returns and before the first next() (pulled-before-first-request); p is monotone (pulls-not-monotone) and p_K <= number of starting vertices (pulled-more-than-exist); for prefixes k in {0, 1, K/2} a fresh run that takes k rows and drops the iterator shows the same counter as the full run at row k and the counter does not move by dropping (pulls-after-drop / prefix-run-differs). The generator appends its DIRECTED tagged-regex worlds (quick 4, thorough 40 worlds x 2 datasets x 8 queries; engine/tagged_regex.rs): a regex / not_regex filter whose operand is a @tag, on the same vertex / a neighbour / inside @optional / inside a (nested) @fold, over datasets whose tagged String values come in runs of equal values (valid patterns, invalid patterns, null) over consecutive STARTING vertices - the shape on which a filter that batches or looks ahead over equal tag values pulls starting vertices beyond the one that contributes the row (nt:tagged-regex-stream: such a query over >= 2 starting vertices). A case is non-trivial (nt:multi-start) when the dataset lists >= 2 starting vertices for the query's root edge and the query returns >= 1 row; nt:early-row when additionally the first row is handed out before all starting vertices were pulled."
     }
     fn generate(&self, tier: Tier, rng: &mut Rng) -> Vec<Case> {
         let (worlds, stats) = generate_worlds(rng, &WorldKnobs::for_tier(tier));
@@ -235,6 +235,11 @@ impl Prop for C03 {
                 if pulls[0] < n_starts {
                     t.push("nt:early-row".into());
                 }
+            }
+            // directed family: a tagged regex filter over runs of equal / valid / invalid tag values
+            // spanning several starting vertices
+            if n_starts >= 2 && e.tags.iter().any(|t| t == engine::tagged_regex::FEATURE) {
+                t.push(format!("nt:{}", engine::tagged_regex::FEATURE));
             }
         } else {
             t.push(format!("answer:{}", e.answer.chars().take(12).collect::<String>()));
